@@ -104,10 +104,19 @@ inductive PathKind
   | link (t : LinkTarget)
   deriving DecidableEq, Repr
 
-/-- one `logger.error('Original exception being dropped: %s', format_exception(type_, value, tb))` -/
+/-- which logger object a context reports to: the one the scenario's own constructor calls designate
+    (the `logger=` argument, or the default when they pass none), or the one the library's internal
+    `save_and_reraise_exception()` of remove_path_on_error uses (always the default: the root logger) -/
+inductive Sink | scenario | library
+  deriving DecidableEq, Repr
+
+/-- one `self.logger.error('Original exception being dropped: %s', format_exception(type_, value, tb))`:
+    the call is made on the context's own logger; whether a record comes out is that logger's business
+    (`isEnabledFor(ERROR)`), not the helper's -/
 structure LogEntry where
   value : Option ExcId
   tb : Tb
+  sink : Sink
   deriving DecidableEq, Repr
 
 structure St where
@@ -139,16 +148,17 @@ inductive Compl
 
 /-! ### save_and_reraise_exception -/
 
-/-- the four fields (excutils.py:185-189); `logger` is the state's `log` -/
+/-- the fields (excutils.py:185-189); records sent to `logger` are collected in the state's `log` -/
 structure Sre where
   reraise : Bool
   type_ : Option Cls
   value : Option ExcId
   tb : Tb
+  sink : Sink                  -- `self.logger`
   deriving DecidableEq, Repr
 
 /-- `__init__` (184-189) -/
-def Sre.init (reraise : Bool) : Sre := ⟨reraise, none, none, []⟩
+def Sre.init (reraise : Bool) (sink : Sink := .scenario) : Sre := ⟨reraise, none, none, [], sink⟩
 
 /-- `capture(check)` (205-210), run in frame `sreCapture` -/
 def capture (check : Bool) (c : Sre) (s : St) : St × Sre × Compl :=
@@ -189,7 +199,7 @@ def force (c : Sre) (s : St) : St × Sre × ExcId :=
     body ended -/
 def exitSre (withFrame : Frame) (c : Sre) (s : St) : Compl → St × Compl
   | .raised e =>                                                     -- 219-225
-    (if c.reraise then { s with log := s.log ++ [⟨c.value, c.tb⟩] } else s, .raised e)
+    (if c.reraise then { s with log := s.log ++ [⟨c.value, c.tb, c.sink⟩] } else s, .raised e)
   | .ok =>
     if c.reraise then                                                -- 226-227
       let (s1, _, v) := force c s
@@ -373,7 +383,7 @@ def rpoeExit (rm : RemoveFn) (e : ExcId) (s : St) : St × Compl :=
   let s1 := s.through e .rpoeGen                     -- thrown into the generator at `yield`
   if (s1.heap.cls e).isExc then                      -- `except Exception:`
     let s2 := { s1 with excInfo := e :: s1.excInfo }
-    let ci := enter (Sre.init true) s2               -- `with excutils.save_and_reraise_exception():`
+    let ci := enter (Sre.init true .library) s2               -- `with excutils.save_and_reraise_exception():`
     let cr := callRemove rm s2                       --     `remove(path)`
     let ex := exitSre .rpoeGen ci (removeOut cr.1 cr.2) cr.2
     let s5 := { ex.1 with excInfo := s1.excInfo }    -- leaving the `except` block
